@@ -374,6 +374,7 @@ func c12Seq(c *core.Ctx, m *core.Model, r *rand.Rand, idx int) {
 		exact     bool
 		events    []string
 		visit     string
+		rs        *storage.RetentionScanner
 	}
 	var runs []run
 	for _, be := range bes {
@@ -392,7 +393,7 @@ func c12Seq(c *core.Ctx, m *core.Model, r *rand.Rand, idx int) {
 		post, _ := c12Dump(be)
 		ev := be.eventsSince(n0, len(pre)-len(post))
 		lo, hi, cutoff, exact := w.window(t0, cs.period)
-		runs = append(runs, run{be, pre, post, lo, hi, cutoff, exact, ev, be.apply(storeOp{kind: "visit"})})
+		runs = append(runs, run{be, pre, post, lo, hi, cutoff, exact, ev, be.apply(storeOp{kind: "visit"}), rs})
 		c.H("seq:scan-wall:" + latBucket(t1.Sub(t0)))
 	}
 	trace = append(trace, fmt.Sprintf("DoScan period=%v sleep=%v", cs.period, cs.sleep))
@@ -410,6 +411,47 @@ func c12Seq(c *core.Ctx, m *core.Model, r *rand.Rand, idx int) {
 		c12Oracles(c, x.be, append(append([]string{}, trace...), "second DoScan"), x.post, again, lo, hi, nil, nil, nil, true, nil)
 		if !cs.border && len(again) != len(x.post) {
 			c.H("seq:second-scan-removed-more(clock-moved-past-a-date)")
+		}
+	}
+	// the scanner's life is a loop of scans by ONE object (RetentionScanner.Start): every later scan is held to the property's sentence
+	// as the first was, whatever the earlier scans saw — mail that arrives between two scans may carry any date (older than everything
+	// an earlier scan retained, younger than everything, an old mailbox or a new one)
+	if cs.period > 0 {
+		for round := 0; round < 2; round++ {
+			var late []storeOp
+			for k, n := 0, 1+r.Intn(3); k < n; k++ {
+				age := int64(cs.period/time.Second) * []int64{3, 2, 10, 0, 0}[r.Intn(5)]
+				if age != 0 {
+					age += 3600
+				}
+				if age == 0 || time.Now().Unix()-age < 100000 { // dates stay after 1970: the legs' bookkeeping is in nanoseconds since then
+					age = r.Int63n(int64(cs.period/time.Second)/2 + 1)
+					if time.Now().Unix()-age < 100000 {
+						age = 0
+					}
+				}
+				box := fmt.Sprintf("late%d", r.Intn(3))
+				if len(cs.adds) > 0 && r.Intn(2) == 0 {
+					box = cs.adds[r.Intn(len(cs.adds))].box
+				}
+				late = append(late, storeOp{kind: "add", box: box, body: c12Body(r), from: "late@src.net", to: []string{"rcpt@dest.org"}, subj: fmt.Sprintf("late-%d-%d", round, k), date: time.Now().Unix() - age})
+			}
+			tr2 := append(append([]string{}, trace...), "second DoScan")
+			if !c12Build(c, nil, bes, late, &tr2) {
+				break
+			}
+			for _, x := range runs {
+				pre, _ := c12Dump(x.be)
+				t0 := time.Now()
+				err := x.rs.DoScan(context.Background())
+				post, _ := c12Dump(x.be)
+				if err != nil {
+					c.Fail("doscan-no-error", append(append([]string{}, tr2...), fmt.Sprintf("--> DoScan #%d of the SAME scanner on the %s store", round+3, x.be.kind)), "DoScan returned "+err.Error(), "")
+				}
+				// cutoff of this scan lies in [t0 - period, now - period]
+				c12Oracles(c, x.be, append(append([]string{}, tr2...), fmt.Sprintf("DoScan #%d of the SAME scanner object (as its run loop does)", round+2)), pre, post, t0.Add(-cs.period), time.Now().Add(-cs.period), nil, nil, nil, true, nil)
+				c.H("seq:later-scan-of-same-scanner")
+			}
 		}
 	}
 	nontrivial := false
